@@ -961,5 +961,6 @@ func runC17(c *gen.Ctx) error {
 	runC17Seq(c)
 	runC17Status(c)
 	runC17RespSeq(c)
+	runC17Retry(c)
 	return nil
 }
